@@ -285,26 +285,41 @@ def run_case(case):
         one[m // 3] = [0.4, 0.2]
         seqs = [["rnd", "one"], ["uni", "half", "lin"], ["lin", "half", "zero"], ["rnd", "zero"], ["wrap", "one", "half", "zero"]]
         pots = dict(A_set, half=half, one=one)
-        for seq in seqs:
-            ops = MeshOperators(mesh, SparseSolver.SUPERLU)
-            for nm in seq:
-                ops.set_link_exponents(pots[nm])
-                LA = ops.psi_laplacian.toarray()
-                SA = a[:, None] * LA
-                e8 = rel(SA - SA.conj().T, SA)
-                res.residual("hermiticity_after_refresh", e8)
-                res.count("triples")
-                if e8 > tol:
-                    res.violate("covariant-laplacian-not-hermitian", A=nm, areas="one", duals="refreshed", detail=dict(det, history=seq))
-                    break
-                want = build_laplacian(mesh, link_exponents=pots[nm])[0].toarray()
-                if rel(LA - want, want) > tol:
-                    res.violate("covariant-laplacian-entries", A=nm, areas="one", duals="refreshed", detail=dict(det, history=seq))
-                    break
-            if seq[-1] == "zero":
-                L0 = build_laplacian(mesh)[0].toarray()
-                if rel(ops.psi_laplacian.toarray() - L0, L0) > tol or float(np.abs(ops.psi_laplacian.toarray() @ np.ones(n)).max()) > 1e-10 * float(np.abs(L0).max()):
-                    res.violate("refreshed-zero-potential-differs-from-scalar-laplacian", areas="one", duals="refreshed", detail=dict(det, history=seq))
+        # configurations of the holder: no pinned sites; pinned sites given but psi not pinned (terminal_psi=None);
+        # pinned sites with psi pinned (identity rows with eigenvalue 1 there, the free operator elsewhere)
+        for cfg, kw in (("plain", {}), ("fixed-sites-psi-free", dict(fixed_sites=fixed, fix_psi=False)), ("fixed-sites-psi-pinned", dict(fixed_sites=fixed, fix_psi=True))):
+            pinned = cfg == "fixed-sites-psi-pinned"
+            for seq in seqs:
+                ops = MeshOperators(mesh, SparseSolver.SUPERLU, **kw)
+                if cfg != "plain":
+                    ops.build_operators()
+                for nm in seq:
+                    ops.set_link_exponents(pots[nm])
+                    LA = ops.psi_laplacian.toarray()
+                    want = build_laplacian(mesh, link_exponents=pots[nm])[0].toarray()
+                    res.count("triples")
+                    if pinned:
+                        want[fixed, :] = 0
+                        want[fixed, fixed] = 1.0
+                    else:
+                        SA = a[:, None] * LA
+                        e8 = rel(SA - SA.conj().T, SA)
+                        res.residual("hermiticity_after_refresh", e8)
+                        if e8 > tol:
+                            res.violate("covariant-laplacian-not-hermitian", A=nm, areas="one", duals="refreshed", holder=cfg, detail=dict(det, history=seq))
+                            break
+                    if rel(LA - want, want) > tol:
+                        res.violate("covariant-laplacian-entries", A=nm, areas="one", duals="refreshed", holder=cfg, detail=dict(det, history=seq))
+                        break
+                    GA = ops.psi_gradient.toarray()
+                    wantG = build_gradient(mesh, link_exponents=pots[nm]).toarray()
+                    if rel(GA - wantG, wantG) > tol:
+                        res.violate("covariant-gradient-entries", A=nm, areas="one", duals="refreshed", holder=cfg, detail=dict(det, history=seq))
+                        break
+                if seq[-1] == "zero" and not pinned:
+                    L0 = build_laplacian(mesh)[0].toarray()
+                    if rel(ops.psi_laplacian.toarray() - L0, L0) > tol or float(np.abs(ops.psi_laplacian.toarray() @ np.ones(n)).max()) > 1e-10 * float(np.abs(L0).max()):
+                        res.violate("refreshed-zero-potential-differs-from-scalar-laplacian", areas="one", duals="refreshed", holder=cfg, detail=dict(det, history=seq))
     res.nontrivial = len(base.boundary_indices) < n
     res.outcome = "ok"
     return res
